@@ -204,6 +204,26 @@ def create_on_trees(ctx, tmp):
                           {"kind": "create-tree", "label": label, "files": files, "argv": ["imdl", "torrent", "create", "--input", "d", "--output", "-"] + extra,
                            "counted_bytes": counted, "expected": want, "rc": rc, "stderr": err.decode("utf-8", "replace")[-300:]})
         shutil.rmtree(d, ignore_errors=True)
+    # several names of one inode: every listed file counts with its length, however many of them share their blocks (added after
+    # seeded change C15-19: hard links counted once "like du" when the total is measured, yet all of them listed and hashed)
+    for nlinks, size in ((4, 2 * MIB), (2, 1 * MIB + 1), (3, 700 * KIB)):
+        d = tempfile.mkdtemp(dir=tmp)
+        mk(os.path.join(d, "d", "orig.bin"), size)
+        for i in range(1, nlinks):
+            os.makedirs(os.path.join(d, "d", "sub%d" % (i % 2)), exist_ok=True)
+            os.link(os.path.join(d, "d", "orig.bin"), os.path.join(d, "d", "sub%d" % (i % 2), "link%d.bin" % i))
+        rc, out, err = ctx.imdl(["torrent", "create", "--input", "d", "--output", "-"], cwd=d, timeout=300)
+        ctx.cov["evaluations"] += 1
+        ctx.count("create_on_trees")
+        ctx.distinct(("create-hardlinks", nlinks, size))
+        pl, want = picked(out) if rc == 0 else None, oracle_pick(nlinks * size)
+        if pl != want:
+            ctx.violation("oracle-failure", "create on a tree of %d hard links to one %d-byte file: the torrent lists %d bytes, recorded piece length %r "
+                          "(rc %d), expected %d" % (nlinks, size, nlinks * size, pl, rc, want),
+                          {"kind": "create-hardlinks", "links": nlinks, "size": size, "rc": rc, "stderr": err.decode("utf-8", "replace")[-300:],
+                           "reproduce": "mkdir -p d/sub0 d/sub1; truncate -s %d d/orig.bin; ln d/orig.bin d/sub1/link1.bin; ...; imdl torrent create --input d --output - | head -c 300" % size})
+        shutil.rmtree(d, ignore_errors=True)
+
     def recorded(out):
         """(piece length, total of the listed lengths) of a written torrent"""
         try:
